@@ -13,6 +13,7 @@ import (
 	"strconv"
 	"strings"
 	"sync"
+	"sync/atomic"
 	"time"
 
 	"connectrpc.com/connect"
@@ -323,18 +324,19 @@ func (s *linearStream) Run(ctx context.Context) error {
 // ------------------------------------------------------------------ one tier1 request, in process
 
 type runCfg struct {
-	Prod    bool   `json:"prod"`
-	Start   int64  `json:"start"`
-	Stop    uint64 `json:"stop"`
-	LibOK   bool   `json:"libok"`
-	Lib     uint64 `json:"lib"`
-	Seg     uint64 `json:"seg"`
-	Workers int    `json:"workers"`
-	Order   int64  `json:"order"`  // seed of the job completion order (0 = as they come)
-	Cursor  string `json:"cursor"` // "" or "resume:<index of the delivered block whose cursor is used>"
-	Label   string `json:"label"`
-	Final   bool   `json:"finalonly"` // final_blocks_only request; the source then emits bare irreversible steps
-	Out     string `json:"outmod"`    // output module ("out" unless stated)
+	Prod      bool   `json:"prod"`
+	Start     int64  `json:"start"`
+	Stop      uint64 `json:"stop"`
+	LibOK     bool   `json:"libok"`
+	Lib       uint64 `json:"lib"`
+	Seg       uint64 `json:"seg"`
+	Workers   int    `json:"workers"`
+	Order     int64  `json:"order"`  // seed of the job completion order (0 = as they come)
+	Cursor    string `json:"cursor"` // "" or "resume:<index of the delivered block whose cursor is used>"
+	Label     string `json:"label"`
+	Final     bool   `json:"finalonly"` // final_blocks_only request; the source then emits bare irreversible steps
+	Out       string `json:"outmod"`    // output module ("out" unless stated)
+	MergeHold int    `json:"mergehold"` // merges wait for this many scheduler messages (0 = as fast as they go)
 }
 
 type respRec struct {
@@ -596,10 +598,29 @@ func runTier1(env *sysEnv, cfg runCfg, cursor string, traceSched bool) (obs runO
 				"workers": len(s.WorkerPool.VerifStates())})
 		}
 	}
+	// merge gate: a merge command waits until the scheduler has handled cfg.MergeHold more messages (or 40 ms have passed:
+	// nothing else may be in flight), so that merges complete late relative to job scheduling - a harness-chosen order
+	var updates atomic.Int64
+	if cfg.MergeHold > 0 {
+		hold := int64(cfg.MergeHold)
+		stage.VerifMergeGate = func(st, sg int) {
+			start := updates.Load()
+			deadline := time.Now().Add(40 * time.Millisecond)
+			for updates.Load() < start+hold && time.Now().Before(deadline) {
+				time.Sleep(200 * time.Microsecond)
+			}
+		}
+	} else {
+		stage.VerifMergeGate = nil
+	}
+	if !traceSched {
+		scheduler.VerifTrace = func(s *scheduler.Scheduler, msg loop.Msg) { updates.Add(1) }
+	}
 	if traceSched {
 		seq := 0
 		scheduler.VerifTrace = func(s *scheduler.Scheduler, msg loop.Msg) {
 			seq++
+			updates.Add(1)
 			o, st := s.VerifFlags()
 			busy := 0
 			for _, w := range s.WorkerPool.VerifStates() {
@@ -612,8 +633,6 @@ func runTier1(env *sysEnv, cfg runCfg, cursor string, traceSched bool) (obs runO
 			obs.Sched = append(obs.Sched, map[string]any{"ev": "supd", "seq": seq, "t": msgType(msg), "seg": seg, "stage": stage, "rows": rows(s),
 				"segDone": in.SegmentCompleted, "shadowable": in.ShadowableSegment, "busy": busy, "walker": walkerOf(s), "outDone": o, "storesDone": st})
 		}
-	} else {
-		scheduler.VerifTrace = nil
 	}
 	ctx := context.Background()
 	ctx = reqctx.WithTier2RequestParameters(ctx, reqctx.Tier2RequestParameters{BlockType: blockType, StateBundleSize: cfg.Seg, StateStoreURL: env.dir, StateStoreDefaultTag: "tag", MeteringConfig: "null://", MergedBlockStoreURL: "/tmp/verif-no-merged-blocks"})
@@ -621,6 +640,7 @@ func runTier1(env *sysEnv, cfg runCfg, cursor string, traceSched bool) (obs runO
 	obs.Panic = guard(func() { err = svc.TestBlocks(ctx, false, req, collect) })
 	cancel()
 	scheduler.VerifTrace = nil
+	stage.VerifMergeGate = nil
 	schedMu.Unlock()
 	if err != nil {
 		obs.Err = err.Error()
@@ -706,6 +726,7 @@ func randCfg(r *rand.Rand, p sysProg, seg uint64) runCfg {
 		c.Order = r.Int63n(1<<30) + 1
 	}
 	c.Final = r.Intn(4) == 0
+	c.MergeHold = []int{0, 0, 1, 3, 8}[r.Intn(5)]
 	return c
 }
 
@@ -716,7 +737,7 @@ func runSystem(a *args) error {
 		return err
 	}
 	defer os.RemoveAll(root)
-	r := rand.New(rand.NewSource(a.seed))
+	var r *rand.Rand
 	n := 40
 	if a.tier == "thorough" {
 		n = 1500
@@ -726,19 +747,32 @@ func runSystem(a *args) error {
 	}
 	want := a.extra // "" = all kinds of scenarios; or: strategies | subsets | resume
 	for i := 0; i < n; i++ {
+		// one random stream per scenario, derived from (seed, index): scenario i can be re-run alone (-only i)
+		r = rand.New(rand.NewSource(a.seed*1000003 + int64(i)))
+		if a.only >= 0 && i != a.only {
+			continue
+		}
 		if want == "faults" {
 			runFaults(a, r, root, i)
+			continue
+		}
+		kind := []string{"strategies", "subsets", "resume", "forks", "sparse"}[i%5]
+		if want != "" {
+			kind = want
+		}
+		if kind == "schedcex" {
+			runSchedCex(a, r, root, i)
+			continue
+		}
+		if kind == "sparse" {
+			runSparseCache(a, r, root, i)
 			continue
 		}
 		prog := randProg(r)
 		env := newSysEnv(filepath.Join(root, fmt.Sprintf("s%d", i)), prog)
 		os.MkdirAll(env.dir, 0755)
 		seg := []uint64{2, 3, 4, 5, 7, 10}[r.Intn(6)]
-		a.emit(map[string]any{"ev": "prog", "prog": prog, "seg": seg})
-		kind := []string{"strategies", "subsets", "resume", "forks", "sparse"}[i%5]
-		if want != "" {
-			kind = want
-		}
+		a.emit(map[string]any{"ev": "prog", "prog": prog, "seg": seg, "scenario": i})
 		switch kind {
 		case "strategies":
 			// a sequence of requests over the same cache: cold production, warm production (other range), development
@@ -799,7 +833,40 @@ func runSystem(a *args) error {
 						keep[f] = true
 					}
 				}
-				if k == 1 || k == 4 {
+				if k == 4 {
+					// crash on a cold cache: jobs have written partial snapshots, nothing is merged yet, and the writes of one job
+					// were cut short: one store misses its files of one segment (the other stores of that job have theirs)
+					var stores []string
+					ends := map[string][]string{}
+					for _, f := range all {
+						parts := strings.Split(f, "/")
+						if len(parts) < 4 || parts[2] != "states" {
+							continue
+						}
+						isPartial := strings.Contains(parts[3], ".partial")
+						keep[f] = isPartial
+						if isPartial {
+							if _, ok := ends[parts[1]]; !ok {
+								stores = append(stores, parts[1])
+							}
+							ends[parts[1]] = append(ends[parts[1]], f)
+						}
+					}
+					sort.Strings(stores)
+					if len(stores) > 0 {
+						m := stores[r.Intn(len(stores))]
+						victim := ends[m][r.Intn(len(ends[m]))]
+						keep[victim] = false
+						if r.Intn(2) == 0 { // ... or all its files up to that segment
+							for _, f := range ends[m] {
+								if f <= victim {
+									keep[f] = false
+								}
+							}
+						}
+					}
+				}
+				if k == 1 {
 					// per-module classes: what pruning one module's directory, a partially uploaded backup or a squash that
 					// stopped half-way leave: each module directory keeps all / none / only partial / only full snapshots /
 					// a prefix of its files; output files all / none / random
@@ -854,16 +921,13 @@ func runSystem(a *args) error {
 				c2 := cfg
 				c2.Label = fmt.Sprintf("subsets/%d", k)
 				c2.Workers = 1 + r.Intn(3)
+				c2.MergeHold = []int{0, 1, 3, 8}[r.Intn(4)]
 				if r.Intn(2) == 0 {
 					c2.Order = r.Int63n(1<<30) + 1
 				}
 				emitRun(a, env, c2, "", true)
 				all = unionFiles(all, listFiles(env.dir))
 			}
-		case "schedcex":
-			runSchedCex(a, r, root, i)
-		case "sparse":
-			runSparseCache(a, r, root, i)
 		case "forks":
 			for k := 0; k < 3; k++ {
 				runForks(a, r, env, seg)
@@ -1141,10 +1205,10 @@ func forkSteps(r *rand.Rand, base uint64, depth int) ([]chainBlock, []genStep) {
 }
 
 type forkObs struct {
-	Resp  []respRec          `json:"resp"`
-	After []map[string]any   `json:"after"` // per step: typed store map, sizes, number of responses so far
-	Err   string             `json:"err"`
-	Panic string             `json:"panic"`
+	Resp  []respRec        `json:"resp"`
+	After []map[string]any `json:"after"` // per step: typed store map, sizes, number of responses so far
+	Err   string           `json:"err"`
+	Panic string           `json:"panic"`
 }
 
 func runForks(a *args, r *rand.Rand, env *sysEnv, seg uint64) {
@@ -1258,7 +1322,6 @@ type streamFunc func(ctx context.Context) error
 
 func (f streamFunc) Run(ctx context.Context) error { return f(ctx) }
 
-
 // runSchedCex replays the design-level counterexample TLC finds in MCSched_3x4 (JobInputsComplete): two store stages
 // (st2 reads st1), a cache that holds st1's snapshots for the first two segments and nothing of st2 (left by an earlier
 // request for a mapper that only reads st1), then a production request whose start block lies in the third segment.
@@ -1296,7 +1359,7 @@ func runSparseCache(a *args, r *rand.Rand, root string, i int) {
 	seg := uint64(2 + r.Intn(4))
 	env := newSysEnv(filepath.Join(root, fmt.Sprintf("sparse%d", i)), prog)
 	os.MkdirAll(env.dir, 0755)
-	a.emit(map[string]any{"ev": "prog", "prog": prog, "seg": seg})
+	a.emit(map[string]any{"ev": "prog", "prog": prog, "seg": seg, "scenario": i})
 	n := uint64(2 + r.Intn(3))
 	c1 := runCfg{Prod: true, Start: 0, Stop: n * seg, LibOK: true, Lib: (n + 2) * seg, Seg: seg, Workers: 2, Label: "strategies/sparse-prepare", Out: "m_src"}
 	emitRun(a, env, c1, "", true)
@@ -1328,7 +1391,7 @@ func runSchedCex(a *args, r *rand.Rand, root string, i int) {
 	seg := uint64(2 + r.Intn(3))
 	env := newSysEnv(filepath.Join(root, fmt.Sprintf("cex%d", i)), prog)
 	os.MkdirAll(env.dir, 0755)
-	a.emit(map[string]any{"ev": "prog", "prog": prog, "seg": seg})
+	a.emit(map[string]any{"ev": "prog", "prog": prog, "seg": seg, "scenario": i})
 	// request 1: mapper out1 over the first two segments: leaves st1's snapshots at the end of segment 0 and 1
 	c1 := runCfg{Prod: true, Start: 0, Stop: 2 * seg, LibOK: true, Lib: 5 * seg, Seg: seg, Workers: 2, Label: "schedcex/prepare", Out: "out1"}
 	emitRun(a, env, c1, "", true)
